@@ -94,6 +94,10 @@ prop("C18",
      rule="exhaustive DFS over the interleavings of 1-3 threads at the granularity of the atomic operations of the two caches (every load and compare-exchange is a yield point of the shim; a weak compare-exchange adds a spurious-failure choice): readers of one shared LazyValue (escaped string -> Inner::parse_from) and of one shared OwnedLazyValue (LazyRaw::load) replayed step by step in the model (per-thread hit / miss+win / miss+lose); mixed readers, cloners and early droppers judged on values and on the allocation ledger (tracked allocations of the worker threads and of the shared value return to the baseline); quick tier caps each scenario at 3000 schedules",
      assumptions=["sequential consistency: the Acquire/Release/AcqRel annotations are not checked against the C++11 memory model", "clone/drop steps are not in the model (they are covered by the ledger on the real code)"])
 
+prop("C01",
+     rule="generated documents: valid / mutated once / mutated twice / truncated (2000 quick, 20000 thorough) plus boundary-size inputs (0..4097 bytes of one byte value) through every safe entry point: 20 parse targets x carriers, get / get_many / get_by_schema with a generated path, lazy and owned-lazy accessors, views, iterators, stream, serialization and Display/Debug of whatever was produced and of every error; verdict per input: no panic, and the tracked allocations of the call return to the baseline; nesting of 200000 levels in a child process must be an error, not a stack overflow",
+     assumptions=["PARTIAL: memory errors that do not crash are not observable by this check (no sanitizer in the quick tier)"])
+
 def classify_known(pid, case, known):
     """return the id of the recorded known finding this mismatch belongs to, or None"""
     for k in known:
